@@ -277,3 +277,104 @@ func c18Wake(c *Ctx, pkg string) {
 		c.Check("C18.W4", funcKey(fn)+":close-wakes", fn.Pos(), has, "removing a stream broadcasts, so its parked writer observes the closed state", "a stream is closed/removed without cond.Broadcast(): its parked writer never observes the closed state")
 	}
 }
+
+// c18CreditTarget (W5): a WINDOW_UPDATE credits the window it names.
+// processWindowUpdate picks `fl := &conn.flow` and switches to `&stream.flow` when the stream exists. The connection
+// window may be credited only for stream id 0: an update for a stream that is already closed (no *stream any more; a
+// legal race with END_STREAM) must be dropped, otherwise its increment inflates the connection send window and MOSN
+// sends more DATA than the peer granted. Decided path-sensitively over the two tests involved (stream id == 0, stream
+// pointer == nil): no feasible path reaches flow.add with the stream pointer nil unless the id was tested to be 0.
+func c18CreditTarget(c *Ctx, pkg string) {
+	for _, typ := range []string{"MServerConn", "MClientConn"} {
+		fn := c.M(pkg, typ, "processWindowUpdate")
+		if fn == nil {
+			c.Unresolved("C18.W5", typ+".processWindowUpdate")
+			continue
+		}
+		fk := funcKey(fn)
+		var add *ssa.Call
+		forEachInstr(fn, false, func(_ *ssa.Function, in ssa.Instruction) {
+			if call, ok := in.(*ssa.Call); ok {
+				if callee := call.Common().StaticCallee(); callee != nil && callee.Name() == "add" && callee.Signature.Recv() != nil && strings.HasSuffix(shortTypeName(callee.Signature.Recv().Type()), "flow") {
+					add = call
+				}
+			}
+		})
+		if add == nil {
+			c.Unresolved("C18.W5", typ+".processWindowUpdate: flow.add")
+			continue
+		}
+		// atoms
+		type atom int
+		const (
+			none atom = iota
+			idNonZero
+			stNil
+		)
+		classify := func(cond ssa.Value) (atom, bool) { // returns atom and whether cond true means atom true
+			bo, ok := cond.(*ssa.BinOp)
+			if !ok {
+				return none, false
+			}
+			if isNilConst(bo.Y) {
+				if _, isPtr := bo.X.Type().Underlying().(*types.Pointer); isPtr {
+					return stNil, bo.Op == token.EQL
+				}
+			}
+			if n, isC := constInt(bo.Y); isC && n == 0 {
+				if _, f, _, okf := loadedField(bo.X); okf && f == "StreamID" {
+					return idNonZero, bo.Op == token.NEQ
+				}
+			}
+			return none, false
+		}
+		type state struct {
+			b      *ssa.BasicBlock
+			id, st int8 // 0 unknown, 1 true, 2 false
+		}
+		seen := map[state]bool{}
+		bad := false
+		var dfs func(s state)
+		dfs = func(s state) {
+			if bad || seen[s] {
+				return
+			}
+			seen[s] = true
+			if s.b == add.Block() {
+				// the connection window is what gets credited when the stream pointer is nil (or never tested)
+				if s.st != 2 && s.id != 2 {
+					bad = true
+				}
+				return
+			}
+			last := s.b.Instrs[len(s.b.Instrs)-1]
+			if ifi, ok := last.(*ssa.If); ok {
+				a, pos := classify(ifi.Cond)
+				for i, succ := range s.b.Succs {
+					ns := state{succ, s.id, s.st}
+					if a != none {
+						val := int8(2)
+						if (i == 0) == pos {
+							val = 1
+						}
+						cur := &ns.id
+						if a == stNil {
+							cur = &ns.st
+						}
+						if *cur != 0 && *cur != val {
+							continue // infeasible
+						}
+						*cur = val
+					}
+					dfs(ns)
+				}
+				return
+			}
+			for _, succ := range s.b.Succs {
+				dfs(state{succ, s.id, s.st})
+			}
+		}
+		dfs(state{fn.Blocks[0], 0, 0})
+		c.Check("C18.W5", fk+":credits-named-window", add.Pos(), !bad, "the connection window is credited only when the stream id is 0; an update for a stream without state is dropped", "a WINDOW_UPDATE naming a stream that no longer exists can reach flow.add on the connection window: the peer's credit for one (closed) stream inflates the connection send window and MOSN can send more DATA than the peer granted")
+	}
+}
